@@ -129,7 +129,7 @@ def read_cases(ctx: Ctx, case: Dict[str, Any], suite: str):
         if ctx.quick:
             budgets = [None, 1] + ctx.rng.sample(budgets[2:], 2)
         for budget in budgets:
-            for out_kind in (["none", "match", "mismatch"] if is_tensor else ["none"]):
+            for out_kind in (["none", "match", "mismatch", "mismatch_dtype"] if is_tensor else ["none"]):
                 if ctx.quick and out_kind != "none" and ctx.rng.random() < 0.4:
                     continue
                 nobatch = ctx.rng.random() < 0.5
@@ -137,6 +137,9 @@ def read_cases(ctx: Ctx, case: Dict[str, Any], suite: str):
                     obj_out = torch.full(want.shape, 1, dtype=want.dtype) if want.dtype != torch.bool else torch.ones(want.shape, dtype=torch.bool)
                 elif out_kind == "mismatch" and isinstance(want, torch.Tensor):
                     obj_out = torch.zeros(list(want.shape) + [2], dtype=want.dtype)
+                elif out_kind == "mismatch_dtype" and isinstance(want, torch.Tensor):
+                    # same shape, another dtype: cannot be loaded in place, the saved dtype must come back
+                    obj_out = torch.zeros(want.shape, dtype=torch.int32 if want.dtype != torch.int32 else torch.float64)
                 else:
                     obj_out = None
                 inp = {"case": case, "path": path, "budget": budget, "obj_out": out_kind, "read_batching": not nobatch}
